@@ -45,7 +45,9 @@ RULE = ('event lists with 0-2 gradient events per channel (trapezoid, triangle, 
         'is summed with others): matrix, bypass identity, drop allowance, inverse rotation, norm; input snapshots. Model: '
         'classification, scaled pieces, threshold and first elimination compared piece-wise with the returned events; '
         'full rotate with the C16 add_gradients model compared event by event (time-boxed, smallest cases first); '
-        'equally shaped trapezoids with equal/different delays; system passed explicitly or via Opts.set_as_default. '
+        'equally shaped trapezoids with equal/different delays; system passed explicitly or via Opts.set_as_default; '
+        'events registered with a Sequence (library ids, shape_IDs): no returned new event may carry such an id, and the '
+        'returned events stored with add_block and decoded with get_block must show the rotated waveforms. '
         'non-trivial = at least one gradient was rotated')
 TRUSTED = ['binary64 arithmetic and np.cos/np.sin are outside the model (cos/sin are fed to the model as exact doubles)',
            'add_gradients is used as "pointwise sum" (property C16), exactly so only at raster centres for arbitrary inputs']
@@ -104,6 +106,28 @@ def gen_case(rng):
     if rng.random() < 0.15:
         case['default_sys'] = True      # rotate() called without a system after Opts.set_as_default()
     return case
+
+
+def gen_registered_case(rng):
+    """events that can be put into one block (zero-ended gradients, at most one gradient on the rotation axis, one RF,
+    one ADC), to be registered with a Sequence before the rotation and added to it afterwards"""
+    sysd = c18.gen_sys(rng)
+    sysd = dict(sysd, max_grad=c18.MAXG * 1000, max_slew=c18.MAXS * 10000)
+    axis = rng.choice(gl.CHN)
+    evs = []
+    for ch in gl.CHN:
+        n = rng.choice([0, 1]) if ch == axis else rng.choice([0, 1, 1, 1, 2])
+        for _ in range(n):
+            evs.append(c18.gen_zero_ended(rng, sysd, ch))
+    if rng.random() < 0.4:
+        evs.append({'kind': 'rf', 'flip': 0.4, 'dur': 1e-3, 'delay': 1e-4})
+    if rng.random() < 0.4:
+        evs.append({'kind': 'adc', 'num': 64, 'dwell': 1e-5, 'delay': 2e-5})
+    if rng.random() < 0.3:
+        evs.append({'kind': 'delay', 'delay': 3e-3})
+    rng.shuffle(evs)
+    angle = rng.choice(SPECIAL) if rng.random() < 0.3 else rng.uniform(-7, 7)
+    return {'sys': sysd, 'events': evs, 'angle': angle, 'axis': axis, 'registered': True}
 
 
 def build(d, system):
@@ -228,6 +252,12 @@ def run_rotate(ctx, cases):
         system = gl.make_system(case['sys'])
         raster = case['sys']['raster']
         evs = [build(d, system) for d in case['events']]
+        seq = None
+        if case.get('registered'):
+            # the events are registered with a Sequence first: they carry library ids (and shape_IDs)
+            seq = pp.Sequence(system)
+            gl.register_events(seq, evs)
+            ctx.count('rotate.registered_events')
         before = [gl.snap(e) for e in evs]
         ang = case['angle']
         c, s = float(np.cos(ang)), float(np.sin(ang))
@@ -260,6 +290,24 @@ def run_rotate(ctx, cases):
             ctx.fail(fail[0], case, fail[1])
             continue
         rest = info['rest']
+        if seq is not None:
+            # the returned events are new events: one that still carries the id of an input makes add_block store the
+            # UNROTATED library entry; the stored block must decode to what rotate returned
+            st = gl.stale_id(evs, out)
+            if st is not None:
+                ctx.fail('C17/output-keeps-library-id', case, {'output_index': st[0], 'id': repr(st[1]),
+                                                               'kind': getattr(out[st[0]], 'type', '?')})
+                continue
+            if out:
+                try:
+                    seq.add_block(*out)
+                except Exception as e:
+                    ctx.fail('C17/stored-add-block-raises', case, {'exception': repr(e)})
+                    continue
+                d = gl.stored_differs(seq, 1, out, raster, info['scale'])
+                if d is not None:
+                    ctx.fail('C17/stored-block', case, d)
+                    continue
         # norm preservation on the rendered waveforms (where both channels are compared at the same times)
         vals = info.get('vals', {})
         sc = info['scale']
@@ -380,7 +428,7 @@ def run_rotate(ctx, cases):
         run_c16_jobs(ctx, c16_jobs)
 
 
-C16_BUDGET = {'quick': 22.0, 'thorough': 600.0}
+C16_BUDGET = {'quick': 10.0, 'thorough': 600.0}
 
 
 def run_c16_jobs(ctx, jobs):
@@ -391,8 +439,11 @@ def run_c16_jobs(ctx, jobs):
     import common
     spent = getattr(ctx, '_c16_spent', 0.0)
     start = spent
+    total = C16_BUDGET[ctx.tier]
+    if ctx.budget_s:
+        total = min(total, 0.2 * ctx.budget_s)      # never more than a fifth of the run's time budget
     for size, _, case, line, out, scale in sorted(jobs, key=lambda j: j[:2]):
-        if spent > C16_BUDGET[ctx.tier] or spent - start > C16_BUDGET[ctx.tier] / 8:
+        if spent > total or spent - start > total / 8:
             ctx.count('corr.rotatec16.not_run_time_budget')
             continue
         t0 = time.time()
@@ -456,9 +507,16 @@ def corpus():
 
 
 def run(ctx):
-    n = {'quick': 1300, 'thorough': 30000}[ctx.tier]
+    n = {'quick': 1100, 'thorough': 30000}[ctx.tier]
     rng = ctx.rng('rotate')
-    cases = corpus() + [gen_case(rng) for _ in range(n)]
+    rr = ctx.rng('registered')
+    # registered-event cases are spread evenly among the general ones, so that a time-boxed run (escalation after a
+    # source change) reaches every kind of case
+    cases = corpus()
+    for i in range(n):
+        if i % 6 == 0:
+            cases.append(gen_registered_case(rr))
+        cases.append(gen_case(rng))
     for i, c in enumerate(cases):
         if i % 211 == 20:
             ctx.sample(c)
